@@ -5,6 +5,7 @@ import ast
 
 from ..absint import new_interp, Interp, HList, HDict, HInst, HGen, NONE, const, is_const, fmt, fmt_tree, mk_not
 from ..astutil import unparse
+from ..names import N
 from ..common import AnalysisError, Report
 from ..facts import facts
 from .. import nf
@@ -77,7 +78,7 @@ def rule_messages(rep: Report, rid="C14.msg") -> None:
     kw = dict(file=EFILE, line=fi.node.lineno, function=fi.qualname)
     m = _super_init_msg(tree)
     line = ("attr", tok, "line")
-    quoted = ("cond", line, ("call", ".strip", (("attr", line, "_trimmed_line_text"),), ()), ("call", ".strip", (const("EOF"),), ()))
+    quoted = ("cond", line, ("call", ".strip", (("attr", line, N.TRIMMED),), ()), ("call", ".strip", (const("EOF"),), ()))
     want_body = [const("expected: "), ("call", ".join", (const(", "), exp), ()), const(", got '"), quoted, const("'")]
     got = _str_parts(m) if m else []
     # the position prefix is built from the location chosen below; compare the message body only
